@@ -441,8 +441,10 @@ impl BitVector for Bv {
 
 impl Hash for Bv {
     fn hash<H: Hasher>(&self, state: &mut H) {
-        self.len().hash(state);
-        for i in 0..Self::int_len::<u64>(self) {
+        // Eq compares values, not lengths: only hash what Eq looks at
+        let significant_bits = self.significant_bits();
+        significant_bits.hash(state);
+        for i in 0..(significant_bits + 63) / 64 {
             self.get_int::<u64>(i).unwrap().hash(state);
         }
     }
